@@ -212,7 +212,7 @@ fn gen_sub(rng: &mut Rng, r: usize, c: usize, oob: bool, for_vector_src: bool) -
   }
 }
 
-pub const PRELUDE: &str = "inc(x<f64>) = z<f64> :=\n    z := x + 1.\naddtwo(x<f64>, y<f64>) = z<f64> :=\n    p := x + 0\n    z := p + y.\nbad(x<f64>) = z<f64> :=\n    y := x + 1\n    q := y + nosuchvar\n    z := q + 1.\nshadow(x<f64>) = z<f64> :=\n    y := x * 2\n    p := y + 1\n    z := p - 3.\nmut(x<f64>) = z<f64> :=\n    ~m := x\n    m = m + 1\n    z := m.\nmutm(x<[f64]>) = z<[f64]> :=\n    ~m := x\n    m[1] = 99\n    z := m.";
+pub const PRELUDE: &str = "inc(x<f64>) = z<f64> :=\n    z := x + 1.\naddtwo(x<f64>, y<f64>) = z<f64> :=\n    p := x + 0\n    z := p + y.\nbad(x<f64>) = z<f64> :=\n    y := x + 1\n    q := y + nosuchvar\n    z := q + 1.\nshadow(x<f64>) = z<f64> :=\n    y := x * 2\n    p := y + 1\n    z := p - 3.\nmut(x<f64>) = z<f64> :=\n    ~m := x\n    m = m + 1\n    z := m.\nmutm(x<[f64]>) = z<[f64]> :=\n    ~m := x\n    m[1] = 99\n    z := m.\nidf(a<f64>) => <f64>\n  | n => n.";
 
 thread_local! { static FUNCTIONS_ON: std::cell::Cell<bool> = const { std::cell::Cell::new(false) }; }
 pub fn set_functions(on: bool) { FUNCTIONS_ON.with(|f| f.set(on)); }
@@ -227,7 +227,9 @@ fn call_source(rng: &mut Rng, m: &Model) -> Expr {
     2 | 3 => Expr::Call("addtwo".into(), vec![arg(rng), arg(rng)]),
     4 => Expr::Call("shadow".into(), vec![arg(rng)]),
     // a body that defines a mutable local from its argument and assigns to it: the caller's variable must not move
-    5 | 6 => Expr::Call("mut".into(), vec![arg(rng)]),
+    5 => Expr::Call("mut".into(), vec![arg(rng)]),
+    // a match-arm function that hands back its argument: the result must be a value of its own
+    6 => Expr::Call("idf".into(), vec![arg(rng)]),
     _ => Expr::Call("inc".into(), vec![Expr::Call("shadow".into(), vec![arg(rng)])]),
   }
 }
@@ -244,6 +246,9 @@ fn built_source(rng: &mut Rng, k: &Knobs, m: &Model) -> Option<Expr> {
   if k.classes.iter().any(|c| c == "map") && !f64s.is_empty() { kinds.push("map"); }
   if k.classes.iter().any(|c| c == "matrix") && (!mats.is_empty() || !f64s.is_empty()) { kinds.push("mat"); }
   if k.classes.iter().any(|c| c == "table") && !f64s.is_empty() { kinds.push("table"); }
+  if k.classes.iter().any(|c| c == "tuple") && !scalars.is_empty() { kinds.push("nested-tuple"); }
+  if k.classes.iter().any(|c| c == "set") && !f64s.is_empty() { kinds.push("set"); }
+  if !scalars.is_empty() || !mats.is_empty() { kinds.push("match-id"); }
   if kinds.is_empty() { return None; }
   let kind = *rng.pick(&kinds);
   let var_of = |rng: &mut Rng, pool: &Vec<&String>| BuiltElem::Var((*rng.pick(pool)).clone());
@@ -260,6 +265,18 @@ fn built_source(rng: &mut Rng, k: &Knobs, m: &Model) -> Option<Expr> {
       for _ in 0..rng.usize(3) { if rng.chance(1, 2) { v.push(var_of(rng, &scalars)); } else { let kk = rng.pick(&k.kinds).clone(); v.push(BuiltElem::Lit(gen_scalar(rng, &kk))); } }
       v
     }
+    "nested-tuple" => {
+      let mut v = vec![var_of(rng, &scalars), BuiltElem::Lit(gen_scalar(rng, "f64")), BuiltElem::Lit(gen_scalar(rng, "f64"))];
+      if rng.chance(1, 2) { v[1] = var_of(rng, &scalars); }
+      if rng.chance(1, 3) { v.push(var_of(rng, &scalars)); }
+      v
+    }
+    "set" => {
+      let mut v = vec![var_of(rng, &f64s)];
+      for _ in 0..(1 + rng.usize(2)) { if rng.chance(1, 2) { v.push(var_of(rng, &f64s)); } else { v.push(BuiltElem::Lit(gen_scalar(rng, "f64"))); } }
+      v
+    }
+    "match-id" => { let pool: Vec<&String> = scalars.iter().chain(mats.iter()).cloned().collect(); vec![var_of(rng, &pool)] }
     "table" => {
       let rows = 1 + rng.usize(3);
       let mut v: Vec<BuiltElem> = (0..rows * 2).map(|_| if rng.chance(1, 2) { var_of(rng, &f64s) } else { BuiltElem::Lit(gen_scalar(rng, "f64")) }).collect();
